@@ -414,6 +414,9 @@ def repo_fingerprint():
     return h.hexdigest()[:16]
 
 
+_PRIV_COPIED = set()
+
+
 def harness_build(crate, release=False, features=None, no_default=False, extra_rustflags="", env=None, tag="", bins=None, timeout=1500, toolchain=None, shim=False):
     """cargo build /verif/harness/<crate> against /repo's working tree with the verification cfg.
        Returns (ok, target_bin_dir, log)."""
@@ -424,15 +427,20 @@ def harness_build(crate, release=False, features=None, no_default=False, extra_r
         # target dir, so that overlapping runs against different repositories never share build state
         h = os.path.basename(COQ)[4:]
         priv = os.path.join(CACHE, "harness-%s-%s" % (crate, h))
-        subprocess.run(["rsync", "-a", "--delete", "--exclude", "target/", "--exclude", "Cargo.lock", cdir + "/", priv + "/"], check=True)
-        for root_, _, files_ in os.walk(priv):
-            for f_ in files_:
-                if f_ in ("Cargo.toml", "build.rs"):
-                    pth = os.path.join(root_, f_)
-                    txt = open(pth).read()
-                    txt2 = txt.replace('"/repo"', '"%s"' % REPO).replace('"/repo/', '"%s/' % REPO)
-                    if txt2 != txt:
-                        open(pth, "w").write(txt2)
+        with Lock("harness-copy-%s-%s" % (crate, h)):     # several configurations are built in parallel from one copy
+          if (crate, h) not in _PRIV_COPIED:                # once per process: a second sync would race with running builds
+            _PRIV_COPIED.add((crate, h))
+            rr = subprocess.run(["rsync", "-a", "--delete", "--exclude", "target/", "--exclude", "Cargo.lock", cdir + "/", priv + "/"])
+            if rr.returncode not in (0, 23, 24):
+                raise RuntimeError("rsync of harness/%s failed (%d)" % (crate, rr.returncode))
+            for root_, _, files_ in os.walk(priv):
+                for f_ in files_:
+                    if f_ in ("Cargo.toml", "build.rs"):
+                        pth = os.path.join(root_, f_)
+                        txt = open(pth).read()
+                        txt2 = txt.replace('"/repo"', '"%s"' % REPO).replace('"/repo/', '"%s/' % REPO)
+                        if txt2 != txt:
+                            open(pth, "w").write(txt2)
         cdir = priv
         tag = (tag + "-" if tag else "") + h
     lock = os.path.join(cdir, "Cargo.lock")
